@@ -574,6 +574,8 @@ class AIOKafkaConsumer:
 
         .. _kafka-python: https://github.com/dpkp/kafka-python
         """
+        if self._closed:
+            raise ConsumerStoppedError()
         if self._group_id is None:
             raise IllegalOperation("Requires group_id")
 
